@@ -323,6 +323,22 @@ func runC10(c *Ctx) {
 					if timeIssues != 0 {
 						c.violation("C10: the embedded token contributed a time-check issue", inp)
 					}
+					// validated with NO containing account (empty key): a token is always addressed to some account,
+					// never to "none", so the binding cannot hold
+					{
+						vr0 := jwt.CreateValidationResults()
+						im.Validate("", vr0)
+						c.sum.ImplChecks++
+						if !vr0.IsBlocking(false) {
+							c.violation("C10: an import validated without a containing account accepts a token addressed to another account", inp)
+						}
+						ims := jwt.Imports{im}
+						vr1 := jwt.CreateValidationResults()
+						ims.Validate("", vr1)
+						if !vr1.IsBlocking(false) {
+							c.violation("C10: an import list validated without a containing account accepts a token addressed to another account", inp)
+						}
+					}
 					// the same import inside a clean account, at a random position
 					ac, _ := g.account()
 					ac.Subject = importer.pub
